@@ -97,7 +97,9 @@ func c07Run(c *Ctx) {
 			ob.Undecided("body outside the path vocabulary: %s", why)
 			continue
 		}
-		paths = v.flagNorm(paths) // a result kept in a local and a loop left by break read as the early return they stand for
+		// a result kept in a local and a loop left by break read as the early return they stand for; a copy of the keys visited
+		// instead of the collection reads as the visit of the collection
+		paths, _ = c.runPaths(fd)
 		// R1: every outcome starts with the own-type test; no foreign type test anywhere; a failed test decides alone
 		bad := ""
 		for _, o := range boolOutcomes(paths) {
@@ -371,6 +373,14 @@ func c07R4(c *Ctx) {
 		good := len(paths) == 1 && paths[0].Why == "" && paths[0].End == "return" && len(paths[0].Vals) == 1 && len(paths[0].Effects()) == 0
 		if good {
 			call, ok := paths[0].Vals[0].(TCall)
+			if ok && len(call.Args) == 1 {
+				// any(argument): a conversion to an interface type hands on the same value
+				if cv, isCv := call.Args[0].(TConv); isCv && cv.To != nil {
+					if _, isI := cv.To.Underlying().(*types.Interface); isI {
+						call.Args = []Term{cv.X}
+					}
+				}
+			}
 			good = ok && call.Fun != nil && call.Fun.Name() == "isEqual" && call.Recv != nil && v.isSelf(call.Recv) && len(call.Args) == 1 && isParamTerm(call.Args[0], par)
 		}
 		if !good {
